@@ -439,7 +439,13 @@ func (in *interp) instr(st *istate, ins ssa.Instruction) {
 		if x.Comment != "" && x.Comment != "complit" && x.Comment != "varargs" && x.Comment != "slicelit" {
 			name = x.Comment
 		}
-		a := symv("&"+in.pfx+name, x.Type())
+		pfx := in.pfx
+		if in.structuralNames && name != x.Name() {
+			// twin comparisons name variables after their source names, wherever
+			// the code that declares them lives
+			pfx = ""
+		}
+		a := symv("&"+pfx+name, x.Type())
 		a.nonnil = true
 		st.env[x] = a
 		delete(st.mem, x) // a local is zeroed each time its declaration executes
